@@ -425,3 +425,418 @@ Lemma ext_full2_inf a b st :
   = okf "full" (full [a; b] NegInf) st.
 Proof. reflexivity. Qed.
 End ExtLemmas.
+
+Definition vars0 := vars_of.
+Definition width_var : string := "width".
+
+(* what [Interp.run] does with the outcome of the body *)
+Definition fin (o : outcome ctl) : outcome val :=
+  match o with
+  | Ok CNormal st => Ok VNone st
+  | Ok (CReturn v) st => Ok v st
+  | Exc n st => Exc n st
+  | Stuck w => Stuck w
+  end.
+
+(* a statement that only binds one tensor variable: both sides continue with ANY tensor (used for
+   `if tm1: to_match = ... else: to_match = ...`, so that the rest of the body is run once, not once per branch) *)
+Definition sim1 (P : tn Z -> state) (o : outcome ctl) (r : option (tn Z)) : Prop :=
+  match o, r with
+  | Ok c st, Some T => c = CNormal /\ st = P T
+  | Stuck _, None => True
+  | _, _ => False
+  end.
+
+Lemma sim_cut (P : tn Z -> state) (o : outcome ctl) (K : ctl -> state -> outcome ctl) (r : option (tn Z))
+  (K' : tn Z -> option outs) :
+  sim1 P o r -> (forall T, sim (fin (K CNormal (P T))) (K' T)) -> sim (fin (bind o K)) (bo r K').
+Proof.
+  intros H1 H2. destruct o as [c st|n st|w], r as [T|]; cbn in H1; try contradiction.
+  - destruct H1 as [-> ->]. apply H2.
+  - exact I.
+Qed.
+
+(* ---- the symbolic run ------------------------------------------------------------------------------------ *)
+#[local] Arguments exec : simpl never.
+#[local] Arguments ext05 : simpl never.
+#[local] Arguments enc_f : simpl never.
+#[local] Arguments enc_i : simpl never.
+#[local] Arguments enc_b : simpl never.
+#[local] Arguments cmp_eval : simpl never.
+#[local] Arguments foreign : simpl never.
+#[local] Arguments extreme_of : simpl never.
+#[local] Arguments val_eqb : simpl never.
+#[local] Arguments method : simpl never.
+#[local] Arguments binop_eval : simpl never.
+#[local] Arguments Z.of_nat !_.
+#[local] Arguments Z.eqb !_ !_.
+#[local] Arguments Z.ltb !_ !_.
+#[local] Arguments Z.leb !_ !_.
+#[local] Arguments Z.add !_ !_.
+#[local] Arguments Z.sub !_ !_.
+#[local] Arguments Z.mul !_ !_.
+#[local] Arguments Z.min !_ !_.
+#[local] Arguments unsqueeze : simpl never.
+#[local] Arguments expand : simpl never.
+#[local] Arguments transpose : simpl never.
+#[local] Arguments view_merge : simpl never.
+#[local] Arguments cat2 : simpl never.
+#[local] Arguments gather : simpl never.
+#[local] Arguments scatter_value : simpl never.
+#[local] Arguments scatter_src : simpl never.
+#[local] Arguments one_hot : simpl never.
+#[local] Arguments fadd : simpl never.
+#[local] Arguments fmul : simpl never.
+#[local] Arguments iadd_b : simpl never.
+#[local] Arguments imul_b : simpl never.
+#[local] Arguments iadd : simpl never.
+#[local] Arguments band : simpl never.
+#[local] Arguments bor : simpl never.
+#[local] Arguments ieq : simpl never.
+#[local] Arguments ile : simpl never.
+#[local] Arguments masked_fill : simpl never.
+#[local] Arguments where_ : simpl never.
+#[local] Arguments iadd_s : simpl never.
+#[local] Arguments isub_s : simpl never.
+#[local] Arguments irem_s : simpl never.
+#[local] Arguments itrunc_div_s : simpl never.
+#[local] Arguments ige_s : simpl never.
+#[local] Arguments iclamp : simpl never.
+#[local] Arguments feq_neginf : simpl never.
+#[local] Arguments bnot : simpl never.
+#[local] Arguments to_bool : simpl never.
+#[local] Arguments fsum : simpl never.
+#[local] Arguments bany : simpl never.
+#[local] Arguments full : simpl never.
+#[local] Arguments topk : simpl never.
+#[local] Arguments size : simpl never.
+#[local] Arguments nats_eqb : simpl never.
+#[local] Arguments adv_cands : simpl never.
+#[local] Arguments adv_to_match : simpl never.
+#[local] Arguments adv_merge : simpl never.
+#[local] Arguments adv_choose : simpl never.
+#[local] Arguments adv_prefix : simpl never.
+#[local] Arguments adv_pad : simpl never.
+#[local] Arguments fin !_ /.
+#[local] Arguments okf _ !_ _ /.
+#[local] Arguments oki _ !_ _ /.
+#[local] Arguments okb _ !_ _ /.
+#[local] Arguments oka _ !_ _ /.
+#[local] Arguments okv _ !_ _ /.
+
+
+Section Run.
+Variable sel : nat -> list mass -> nat -> list nat.
+Notation E := (ext05 sel).
+
+Lemma attribute_f : forall t a st, attribute E (enc_f t) a st = E ("$attr." ++ a) [enc_f t] [] st. Proof. reflexivity. Qed.
+Lemma attribute_i : forall t a st, attribute E (enc_i t) a st = E ("$attr." ++ a) [enc_i t] [] st. Proof. reflexivity. Qed.
+Lemma attribute_b : forall t a st, attribute E (enc_b t) a st = E ("$attr." ++ a) [enc_b t] [] st. Proof. reflexivity. Qed.
+Lemma method_f : forall t m args, method (enc_f t) m args = None. Proof. reflexivity. Qed.
+Lemma method_i : forall t m args, method (enc_i t) m args = None. Proof. reflexivity. Qed.
+Lemma method_b : forall t m args, method (enc_b t) m args = None. Proof. reflexivity. Qed.
+Lemma foreign_f : forall t, foreign (enc_f t) = true. Proof. reflexivity. Qed.
+Lemma foreign_i : forall t, foreign (enc_i t) = true. Proof. reflexivity. Qed.
+Lemma foreign_b : forall t, foreign (enc_b t) = true. Proof. reflexivity. Qed.
+Lemma foreign_int : forall z, foreign (VInt z) = false. Proof. reflexivity. Qed.
+Lemma foreign_shape : forall sh, foreign (VTuple (enc_shape sh)) = false. Proof. intros [|? ?]; reflexivity. Qed.
+Lemma foreign_cons_int : forall z l, foreign (VTuple (VInt z :: l)) = false. Proof. reflexivity. Qed.
+Lemma foreign_cons_f : forall t l, foreign (VTuple (enc_f t :: l)) = false. Proof. reflexivity. Qed.
+Lemma foreign_cons_i : forall t l, foreign (VTuple (enc_i t :: l)) = false. Proof. reflexivity. Qed.
+Lemma foreign_nil : foreign (VTuple []) = false. Proof. reflexivity. Qed.
+Lemma foreign_inf : forall p, foreign (VInf p) = false. Proof. reflexivity. Qed.
+Lemma val_eqb_nats1 a : val_eqb (VTuple [VInt (Z.of_nat a)]) (VTuple [VInt (Z.of_nat a)]) = true.
+Proof. change (val_eqb (VTuple (enc_shape [a])) (VTuple (enc_shape [a])) = true). rewrite val_eqb_shape. apply nats_eqb_refl. Qed.
+Lemma val_eqb_nats2 a b : val_eqb (VTuple [VInt (Z.of_nat a); VInt (Z.of_nat b)]) (VTuple [VInt (Z.of_nat a); VInt (Z.of_nat b)]) = true.
+Proof. change (val_eqb (VTuple (enc_shape [a; b])) (VTuple (enc_shape [a; b])) = true). rewrite val_eqb_shape. apply nats_eqb_refl. Qed.
+Lemma val_eqb_nats3 a b c : val_eqb (VTuple [VInt (Z.of_nat a); VInt (Z.of_nat b); VInt (Z.of_nat c)]) (VTuple [VInt (Z.of_nat a); VInt (Z.of_nat b); VInt (Z.of_nat c)]) = true.
+Proof. change (val_eqb (VTuple (enc_shape [a; b; c])) (VTuple (enc_shape [a; b; c])) = true). rewrite val_eqb_shape. apply nats_eqb_refl. Qed.
+Lemma val_eqb_str : forall a b, val_eqb (VStr a) (VStr b) = String.eqb a b. Proof. reflexivity. Qed.
+Lemma p2n1 : Pos.to_nat 1 = 1%nat. Proof. reflexivity. Qed.
+Lemma p2n2 : Pos.to_nat 2 = 2%nat. Proof. reflexivity. Qed.
+Lemma of_nat_3 : (Z.of_nat 3 =? 3)%Z = true. Proof. reflexivity. Qed.
+
+
+Lemma size_0 : forall a b c, size (mkTn [a; b; c] ([] : list unit)) 0 = Some a.
+Proof. reflexivity. Qed.
+Lemma binop_tensor_f : forall op t v st, exists m, binop_eval op (enc_f t) v st = Stuck m.
+Proof. intros. destruct op; cbn; destruct v; eexists; reflexivity. Qed.
+
+Ltac unhide := match goal with |- context [exec E ?r ?st] => is_var r; subst r end.
+Ltac step0 :=
+  match goal with
+  | |- context [exec E (SAssign [TName _] _) _] => rewrite exec_assign1
+  | |- context [exec E (SIf ?c ?a ?b) ?st] =>
+      lazymatch c with EName "tm1" => fail | _ => idtac end; rewrite (exec_if E c a b st)
+  | |- context [exec E (SRaise _) _] => rewrite exec_raise
+  | |- context [exec E (SReturn _) _] => rewrite exec_return
+  | |- context [exec E SPass _] => rewrite exec_pass
+  | |- context [exec E (SSeq ?a ?b) ?st] =>
+      rewrite (exec_seq E a b st); let r := fresh "rest" in remember b as r
+  end.
+Ltac step := try unhide; step0.
+
+Definition binmsg (op : binop) : string :=
+  match op with Add => "add" | Sub => "sub" | Mul => "mul" | FloorDiv => "floordiv" | Mod => "mod" | Pow => "pow" | BitAnd => "and" | BitOr => "or" | Div => "truediv" end.
+Lemma binop_ib : forall op t u st, binop_eval op (enc_i t) (enc_b u) st = Stuck (binmsg op). Proof. intros. destruct op; reflexivity. Qed.
+Lemma binop_ii : forall op t u st, binop_eval op (enc_i t) (enc_i u) st = Stuck (binmsg op). Proof. intros. destruct op; reflexivity. Qed.
+Lemma binop_bb : forall op t u st, binop_eval op (enc_b t) (enc_b u) st = Stuck (binmsg op). Proof. intros. destruct op; reflexivity. Qed.
+Lemma binop_iz : forall op t z st, op = Add \/ op = Sub \/ op = Mod -> binop_eval op (enc_i t) (VInt z) st = Stuck (binmsg op).
+Proof. intros op t z st [->|[->| ->]]; reflexivity. Qed.
+Lemma binop_add_zz : forall a b st, binop_eval Add (VInt a) (VInt b) st = Ok (VInt (a + b)) st. Proof. reflexivity. Qed.
+Lemma binop_sub_zz : forall a b st, binop_eval Sub (VInt a) (VInt b) st = Ok (VInt (a - b)) st. Proof. reflexivity. Qed.
+Lemma binop_mul_zz : forall a b st, binop_eval Mul (VInt a) (VInt b) st = Ok (VInt (a * b)) st. Proof. reflexivity. Qed.
+Lemma binop_ff : forall op t u st, binop_eval op (enc_f t) (enc_f u) st = Stuck (match op with Add => "add" | Sub => "sub" | Mul => "mul" | FloorDiv => "floordiv" | Mod => "mod" | Pow => "pow" | BitAnd => "and" | BitOr => "or" | Div => "truediv" end).
+Proof. intros. destruct op; reflexivity. Qed.
+
+Ltac ext_rw f a k :=
+  lazymatch f with
+  | "$method.dim" =>
+      lazymatch a with
+      | [enc_f _] => rewrite ext_dim_f
+      | [enc_i _] => rewrite ext_dim_i
+      end
+  | "$attr.shape" =>
+      lazymatch a with
+      | [enc_f _] => rewrite ext_shape_f
+      | [enc_i _] => rewrite ext_shape_i
+      | [enc_b _] => rewrite ext_shape_b
+      end
+  | "$attr.device" =>
+      lazymatch a with
+      | [enc_f _] => rewrite ext_device_f
+      | [enc_i _] => rewrite ext_device_i
+      end
+  | "$attr.dtype" =>
+      lazymatch a with
+      | [enc_f _] => rewrite ext_dtype_f
+      | [enc_i _] => rewrite ext_dtype_i
+      end
+  | "$method.size" =>
+      lazymatch a with
+      | [enc_i _; VInt _] => rewrite ext_size_i
+      end
+  | "$getitem" =>
+      lazymatch a with
+      | [VTuple _; VTuple [VStr "$slice"; VInt 1; VNone; VNone]] => rewrite ext_getitem_tail
+      end
+  | "float" =>
+      lazymatch a with
+      | [VStr "inf"] => rewrite ext_float_inf
+      end
+  | "$method.unsqueeze" =>
+      lazymatch a with
+      | [enc_f _; VInt _] => rewrite ext_unsqueeze_f
+      | [enc_i _; VInt _] => rewrite ext_unsqueeze_i
+      | [enc_b _; VInt _] => rewrite ext_unsqueeze_b
+      end
+  | "$method.expand" =>
+      lazymatch a with
+      | [enc_f _; VInt _; VInt _; VInt _] => rewrite ext_expand_f
+      | [enc_i _; VInt _; VInt _; VInt _] => rewrite ext_expand_i
+      | [enc_b _; VInt _; VInt _; VInt _] => rewrite ext_expand_b
+      end
+  | "$method.transpose" =>
+      lazymatch a with
+      | [enc_i _; VInt _; VInt _] => rewrite ext_transpose_i
+      end
+  | "$method.view" =>
+      lazymatch a with
+      | [enc_f _; VInt _; VInt _] => rewrite ext_view_f
+      end
+  | "$method.gather" =>
+      lazymatch a with
+      | [enc_f _; VInt _; enc_i _] => rewrite ext_gather_f
+      | [enc_i _; VInt _; enc_i _] => rewrite ext_gather_i
+      | [enc_b _; VInt _; enc_i _] => rewrite ext_gather_b
+      end
+  | "$method.scatter" =>
+      lazymatch a with
+      | [enc_i _; VInt _; enc_i _; enc_i _] => rewrite ext_scatter_i
+      | [enc_f _; VInt _; enc_i _; VQ 0] => rewrite ext_scatter_f0
+      end
+  | "$method.masked_fill" =>
+      lazymatch a with
+      | [enc_f _; enc_b _; VQ 0] => rewrite ext_masked_fill_0
+      | [enc_f _; enc_b _; VInf false] => rewrite ext_masked_fill_inf
+      end
+  | "$method.clamp" =>
+      lazymatch a with
+      | [enc_i _; VInt _; VInt _] => rewrite ext_clamp2
+      | [enc_i _] => first [rewrite ext_clamp_min | rewrite ext_clamp_max]
+      end
+  | "$method.sum" =>
+      lazymatch a with
+      | [enc_f _; VInt _] => rewrite ext_sum
+      end
+  | "$method.any" =>
+      lazymatch a with
+      | [enc_b _; VInt _] => rewrite ext_any
+      end
+  | "$method.to" =>
+      lazymatch a with
+      | [enc_i _; dtype_b] => rewrite ext_to_bool
+      end
+  | "$method.topk" =>
+      lazymatch a with
+      | [enc_f _; VInt _; VInt _] => rewrite ext_topk
+      end
+  | "$method.new_empty" =>
+      lazymatch a with
+      | [enc_i _; VInt _; VInt _; VInt _] => rewrite ext_new_empty_i
+      end
+  | "operator" =>
+      lazymatch a with
+      | [VStr "add"; enc_f _; enc_f _] => rewrite ext_add_ff
+      | [VStr "mul"; enc_f _; enc_f _] => rewrite ext_mul_ff
+      | [VStr "add"; enc_i _; enc_b _] => rewrite ext_add_ib
+      | [VStr "mul"; enc_i _; enc_b _] => rewrite ext_mul_ib
+      | [VStr "add"; enc_i _; enc_i _] => rewrite ext_add_ii
+      | [VStr "and"; enc_b _; enc_b _] => rewrite ext_and
+      | [VStr "or"; enc_b _; enc_b _] => rewrite ext_or
+      | [VStr "add"; enc_i _; VInt _] => rewrite ext_add_is
+      | [VStr "sub"; enc_i _; VInt _] => rewrite ext_sub_is
+      | [VStr "mod"; enc_i _; VInt _] => rewrite ext_mod_is
+      end
+  | "compare" =>
+      lazymatch a with
+      | [VStr "eq"; enc_i _; enc_i _] => rewrite ext_eq_ii
+      | [VStr "le"; enc_i _; enc_i _] => rewrite ext_le_ii
+      | [VStr "ge"; enc_i _; VInt _] => rewrite ext_ge_is
+      | [VStr "eq"; enc_f _; VInf false] => rewrite ext_eq_finf
+      end
+  | "$invert" =>
+      lazymatch a with
+      | [enc_b _] => rewrite ext_invert
+      end
+  | "torch.cat" =>
+      lazymatch a with
+      | [VList [enc_f _; enc_f _]; VInt _] => rewrite ext_cat_f
+      | [VList [enc_i _; enc_i _]; VInt _] => rewrite ext_cat_i
+      | [VList [enc_b _; enc_b _]; VInt _] => rewrite ext_cat_b
+      end
+  | "torch.where" =>
+      lazymatch a with
+      | [enc_b _; enc_f _; enc_f _] => rewrite ext_where_f
+      | [enc_b _; enc_i _; enc_i _] => rewrite ext_where_i
+      end
+  | "torch.nn.functional.one_hot" =>
+      lazymatch a with
+      | [enc_i _; VInt _] => rewrite ext_one_hot
+      end
+  | "trunc_divide" =>
+      lazymatch a with
+      | [enc_i _; VInt _] => rewrite ext_trunc
+      end
+  | "torch.zeros" =>
+      lazymatch a with
+      | [VTuple [VInt _; VInt _; VInt _]] => first [rewrite ext_zeros3_i]
+      | [VTuple [VInt _; VInt _]] => first [rewrite ext_zeros2_b | rewrite ext_zeros2_i]
+      end
+  | "torch.empty" =>
+      lazymatch a with
+      | [VTuple [VInt _; VInt _; VInt _]] => first [rewrite ext_empty3_i]
+      end
+  | "torch.full" =>
+      lazymatch a with
+      | [VTuple [VInt _; VInt _]; VInf false] => first [rewrite ext_full2_inf]
+      end
+  end.
+
+Ltac rw :=
+  repeat match goal with
+  | H : shp ?t = _ |- context [shp ?t] => rewrite H
+  | |- context [E ?f ?a ?k _] => ext_rw f a k
+  | |- context [method ?v _ _] =>
+      lazymatch v with enc_f _ => rewrite method_f | enc_i _ => rewrite method_i | enc_b _ => rewrite method_b end
+  | |- context [attribute E ?v _ _] =>
+      lazymatch v with enc_f _ => rewrite attribute_f | enc_i _ => rewrite attribute_i | enc_b _ => rewrite attribute_b end
+  | |- context [foreign ?v] =>
+      lazymatch v with
+      | enc_f _ => rewrite foreign_f | enc_i _ => rewrite foreign_i | enc_b _ => rewrite foreign_b
+      | VInt _ => rewrite foreign_int | VInf _ => rewrite foreign_inf
+      | VTuple (VInt _ :: _) => rewrite foreign_cons_int
+      | VTuple (enc_f _ :: _) => rewrite foreign_cons_f
+      | VTuple (enc_i _ :: _) => rewrite foreign_cons_i
+      | VTuple [] => rewrite foreign_nil
+      end
+  | |- context [val_eqb ?x ?y] =>
+      lazymatch x with
+      | VInt _ => rewrite val_eqb_int
+      | VStr _ => rewrite val_eqb_str
+      | VTuple [_] => rewrite val_eqb_nats1
+      | VTuple [_; _] => rewrite val_eqb_nats2
+      | VTuple [_; _; _] => rewrite val_eqb_nats3
+      end
+  | |- context [binop_eval ?op ?x ?y _] =>
+      lazymatch x with
+      | VInt _ => lazymatch op with Add => rewrite binop_add_zz | Sub => rewrite binop_sub_zz | Mul => rewrite binop_mul_zz end
+      | enc_f _ => rewrite binop_ff
+      | enc_b _ => rewrite binop_bb
+      | enc_i _ => lazymatch y with enc_b _ => rewrite binop_ib | enc_i _ => rewrite binop_ii | VInt _ => rewrite binop_iz by (auto) end
+      end
+  | |- context [cmp_eval ?op _ _] => lazymatch op with Lt => rewrite cmp_lt_int | NotEq => rewrite cmp_ne end
+  | |- context [extreme_of false [VInt _; VInt _] _] => rewrite min_int
+  | |- context [(Z.of_nat 3 =? 3)%Z] => rewrite of_nat_3
+  | |- context [Pos.to_nat 1] => rewrite p2n1
+  | |- context [Pos.to_nat 2] => rewrite p2n2
+  | |- context [size (mkTn [_; _; _] _) 0] => rewrite size_0
+  end.
+
+Ltac rwh := repeat match goal with H : shp _ = _ |- _ => rewrite H end.
+Ltac go := repeat (progress (unfold set_var, vnat; cbn; rw)).
+
+Ltac dcond := match goal with |- sim ?L ?R => match L with context [if ?c then _ else _] => match R with context [c] => destruct c eqn:? end end end.
+Ltac dopt := match goal with
+   | H : ?o = _ |- context [okf _ ?o _] => rewrite H
+   | H : ?o = _ |- context [oki _ ?o _] => rewrite H
+   | H : ?o = _ |- context [okb _ ?o _] => rewrite H
+   | |- sim ?L ?R => match L with
+   | context [okv _ (option_map _ ?o) _] => match R with context [o] => destruct o eqn:? end
+   | context [okf _ ?o _] => match R with context [o] => destruct o eqn:? end
+   | context [oki _ ?o _] => match R with context [o] => destruct o eqn:? end
+   | context [okb _ ?o _] => match R with context [o] => destruct o eqn:? end
+   | context [topk ?a ?b ?c ?d] => match R with context [topk a b c d] => destruct (topk a b c d) as [[? ?]|] eqn:? end
+   end end.
+Ltac dcond1 := match goal with |- sim1 _ ?L ?R => match L with context [if ?c then _ else _] => match R with context [c] => destruct c eqn:? end end end.
+Ltac dopt1 := match goal with
+   | |- sim1 _ ?L ?R => match L with
+   | context [oki _ ?o _] => match R with context [o] => destruct o eqn:? end
+   end end.
+Ltac step_tm1 := match goal with |- context [exec E (SIf ?c ?a ?b) ?st] => rewrite (exec_if E c a b st) end.
+Ltac auto3 := first [ dcond1; go | dopt1; go | (try unhide; match goal with
+  | |- context [exec E (SAssign [TName _] _) _] => rewrite exec_assign1 end); go ];
+  try lazymatch goal with |- True => exact I | |- _ /\ _ => split; reflexivity end.
+Ltac unf := first [ progress unfold adv_cands | progress unfold adv_to_match | progress unfold adv_merge
+  | progress unfold adv_choose | progress unfold adv_prefix | progress unfold adv_pad ].
+Ltac auto1 := first [ dcond; go | dopt; go | step; go | unf; go ].
+Ltac auto2 := auto1; try lazymatch goal with |- True => exact I | |- @eq string _ _ => reflexivity | |- @eq val _ _ => reflexivity end.
+
+Theorem run_is_adv : forall ext nonext blank w nb b y last lens isp N Kp V tm1,
+  shp ext = [N; Kp; V] -> shp nonext = [N; V] -> shp blank = [N] -> shp nb = [N; Kp] -> shp b = [N; Kp] ->
+  shp y = [tm1; N; Kp] -> shp last = [N; Kp] -> shp lens = [N; Kp] -> shp isp = [N; Kp; Kp] -> (1 <= w)%Z ->
+  sim (Interp.run E cpsa_body (vars0 ext nonext blank w nb b y last lens isp))
+      (adv_tensor sel N Kp V tm1 ext nonext blank w nb b y last lens isp).
+Proof.
+  intros ext nonext blank w nb b y last lens isp N Kp V tm1 H1 H2 H3 H4 H5 H6 H7 H8 H9 Hw.
+  change (Interp.run E cpsa_body (vars0 ext nonext blank w nb b y last lens isp))
+    with (fin (exec E cpsa_body (mkState (vars0 ext nonext blank w nb b y last lens isp) []))).
+  unfold cpsa_body, vars0, vars_of, adv_tensor.
+  assert (Hw' : (w <? 1)%Z = false) by lia.
+  step; go. step; go. rewrite Hw'.
+  repeat auto2.
+  (* `if tm1: to_match = ... else: to_match = ...`: both branches only bind to_match; the rest is run once *)
+  lazymatch goal with |- sim (fin (bind (exec E (SIf _ _ _) ?st) _)) _ =>
+    eapply (sim_cut (fun T => set_var "to_match" (enc_i T) st)) end.
+  - step_tm1; go. repeat auto3.
+  - intros T. unfold set_var. cbn. repeat auto2.
+Time Qed.
+
+(* `if width < 1: raise RuntimeError("width must be positive")`, before anything else: any other arguments *)
+Theorem run_raises_width : forall vs w, lookup width_var vs = Some (VInt w) -> (w < 1)%Z ->
+  Interp.run E cpsa_body vs = Exc runtime_error (mkState vs []).
+Proof.
+  intros vs w Hl Hw. unfold Interp.run, cpsa_body. step0. rewrite (exec_if E). cbn [eval bind vars].
+  change "width" with width_var. rewrite Hl. cbn [bind]. rewrite cmp_lt_int. replace (w <? 1)%Z with true by lia. reflexivity.
+Qed.
+End Run.
